@@ -32,6 +32,12 @@ Excluded (not generated): start() while a coroutine invocation is still in fligh
 started _run is pending (same-instant stop()+start() restarts only when the timer had not fired yet), or without a
 preceding stop() (two timers are armed; the statement speaks about stop orderings only).
 
+Corrections: "no run after stop" compared the harness's stop flag with the moment the callback BODY started; for
+hand-over forms where calling the callback runs no harness code the body may start after a stop() that came after the
+call (an implementation that calls the callback directly from the timer).  The clause now uses the recorded event order
+and tolerates exactly one start observed after stop() when stop() came while a fired timer's invocation had not been
+observed yet (those forms only); the invoked-exactly-once accounting accepts the same range.
+
 Sensitivity (quick tier, seed 1, one textual mutation at a time on a scratch copy):
   * _update_next: `floor(...) + 1` -> `floor(...)` (DESIGN)                     -> caught (C39.not_later_than_previous; the
     wrapper's runaway cap keeps the case finite)
@@ -137,6 +143,10 @@ class Rec:
         self.fired = 0
         self.excused = 0
         self.excuse_given = False
+        self.stop_while_pending = False
+        self.tolerated = 0
+        self.seq = 0
+        self.stop_seq = 0
 
     def fail(self, clause, detail):
         self.failures.append((clause, detail))
@@ -260,8 +270,19 @@ async def _scn(case, rec):
         n = sum(1 for s in rec.starts if s["epoch"] == rec.epoch)
         rec.starts.append({"t": t, "epoch": rec.epoch, "n": n, "back": rec.back})
         rec.dispatch_pending = False
+        rec.seq += 1
         if rec.stopped:
-            rec.fail("C39.run_after_stop", {"t": t})
+            # Real event order, not timestamps: a violation only if this invocation STARTS after a stop() call returned
+            # (and before a later start()).  For hand-over forms whose call executes no harness code (async def, its
+            # partial, a lambda returning the bare coroutine object, an object with async __call__) the harness only
+            # sees the body start, which may lie after the call; if stop() came while a fired timer's invocation had not
+            # been observed yet, that one invocation may have been made before stop() and is not counted.
+            if late_form and rec.stop_while_pending:
+                rec.stop_while_pending = False
+                rec.tolerated += 1
+                rec.labels.add("start_observed_after_stop_tolerated")
+            else:
+                rec.fail("C39.run_after_stop", {"t": t, "stop_seq": rec.stop_seq, "start_seq": rec.seq})
         if rec.inflight:
             rec.fail("C39.overlap", {"t": t})
         if rec.sched:
@@ -355,10 +376,12 @@ async def _scn(case, rec):
     is_coro = kind.startswith("coro")
     form = case.get("cform", "async_def") if is_coro else case.get("pform", "plain")
     rec.labels.add("form." + form)
+    late_form = is_coro and form in ("async_def", "partial_async", "lambda_coro", "callable_obj")
     pc = PeriodicCallback((coro_forms if is_coro else plain_forms)[form], _period_arg(case["period"]), jitter)
 
     def start():
         rec.stopped = False
+        rec.stop_while_pending = False
         rec.back = False
         rec.dispatch_pending = False
         rec.epoch_start.append(loop.time())
@@ -366,10 +389,13 @@ async def _scn(case, rec):
 
     def stop():
         if rec.dispatch_pending and not rec.excuse_given:
-            # the timer has fired but _run has not taken its first step: stop() legitimately prevents that invocation
+            # the timer has fired but no invocation has been observed yet: stop() may legitimately prevent it
             rec.excuse_given = True
             rec.excused += 1
+            rec.stop_while_pending = True
         pc.stop()
+        rec.seq += 1
+        rec.stop_seq = rec.seq  # stop() has returned
         rec.stopped = True
 
     start()
@@ -440,10 +466,12 @@ async def _scn(case, rec):
         pc.stop()
         del io.add_timeout
     # every fired periodic timer leads to exactly one invocation of the callback, unless stop() came first
-    expected = rec.fired - rec.excused
-    if not rec.runaway and len(rec.starts) != expected:
-        rec.fail("C39.callback_not_invoked" if len(rec.starts) < expected else "C39.extra_invocation",
-                 {"timers_fired": rec.fired, "stopped_before_first_step": rec.excused, "callback_starts": len(rec.starts)})
+    lo = rec.fired - rec.excused
+    hi = lo + rec.tolerated  # late-observed forms: an invocation made before stop() but seen after it
+    if not rec.runaway and not (lo <= len(rec.starts) <= hi):
+        rec.fail("C39.callback_not_invoked" if len(rec.starts) < lo else "C39.extra_invocation",
+                 {"timers_fired": rec.fired, "stopped_before_invocation_seen": rec.excused, "tolerated": rec.tolerated,
+                  "callback_starts": len(rec.starts)})
     return rec
 
 
